@@ -39,6 +39,31 @@ def run(run):
         sr.stop_marker_ends_loop(run, lc, rule="O1.6")
         c07.no_strong_across_select(run, lc)     # O1.7
         tell_commits_last(run, f, sp)
+        timed_tell_is_tell(run, f, sp)
+
+
+def timed_tell_is_tell(run, f, sp):
+    """O1.8, second half: the single-suspension-point argument is about `tell`, so what the timed tell variants put under
+    their deadline must be that `tell` (not e.g. `ask`, which stays suspended after its message was committed: the deadline
+    could then fire for a message that is handled)."""
+    from rules import c10
+    from rules.common import tracer_of
+    from prov import strip_wrappers, show
+    n = 0
+    for site in sp.timeouts:
+        fnname = sr.short_fn(site.root)
+        if "tell" not in fnname:
+            continue
+        n += 1
+        tr = tracer_of(site.body)
+        args = [tr.norm(a) for a in tr.call_args(site.bb)]
+        fb, fut = sp.lift(site.body, args[1])
+        fut = strip_wrappers(fut)
+        base = fut[2] if fut[0] == "call" else None
+        run.require(c10.BASE.get(base) == "tell", "O1.8", "timed-tell-wraps-tell:%s" % fnname,
+                    "the future %s puts under its deadline is %s, not tell(self, msg): it can still be suspended after the message entered the mailbox, so Err(Timeout) can be reported for a message that is handled" % (fnname, show(fut)),
+                    "the deadline of %s covers exactly tell(self, msg)" % fnname, loc=site.loc)
+    run.require(n >= 2, "O1.8", "timed-tell-floor", "only %d timed tell variants found (expected tell_with_timeout and the blocking helper)" % n, "%d timed tell variants" % n)
 
 
 def tell_commits_last(run, f, sp):
